@@ -177,19 +177,19 @@ Qed.
 
 (* ---------- tag-tree decoders ---------- *)
 
-Lemma dec_loop_good : forall fuel r low thr v, rd_ok r -> (Z.to_nat (thr - low) + 2 <= fuel)%nat ->
-  good (fun res => RS r (snd res)) (tt_dec_loop fuel r low thr v).
+Lemma dec_loop_good : forall fuel r low thr v u, rd_ok r -> (Z.to_nat (thr - low) + 2 <= fuel)%nat ->
+  good (fun res => RS r (snd res)) (tt_dec_loop fuel r low thr v u).
 Proof.
-  induction fuel as [|f IH]; intros r low thr v Hr Hf; [lia|].
+  induction fuel as [|f IH]; intros r low thr v u Hr Hf; [lia|].
   cbn [tt_dec_loop]. destruct (Z.ltb_spec low thr) as [Hlt|Hge]; cbn [andb].
   2:{ cbn [good snd]. apply RS_refl. exact Hr. }
-  destruct (low <? v); [|cbn [good snd]; apply RS_refl; exact Hr].
+  destruct (u || (low <? v)); [|cbn [good snd]; apply RS_refl; exact Hr].
   eapply good_bind; [apply read_bit_good; exact Hr|]. intros [b r1] H1. cbn [fst snd] in *.
   destruct (b =? 0).
   - eapply good_weaken; [apply IH; [apply H1 | lia]|]. intros a Ha. eapply RS_trans; eassumption.
-  - (* the node value becomes low: the next test fails *)
+  - (* the node value becomes low and the node is set: the next test fails *)
     destruct f as [|f']; [lia|]. cbn [tt_dec_loop].
-    destruct (Z.ltb_spec low low); [lia|]. rewrite Bool.andb_false_r. cbn [good snd]. exact H1.
+    destruct (Z.ltb_spec low low); [lia|]. cbn [orb]. rewrite Bool.andb_false_r. cbn [good snd]. exact H1.
 Qed.
 
 (* the decoder-side walk keeps the geometry *)
@@ -200,16 +200,18 @@ Proof.
   - cbn [good fst snd]. split; [apply RS_refl; exact Hr | apply same_geom_refl; exact Hs].
   - set (low1 := if low >? get2 (tt_low t) lv idx 0 then low else get2 (tt_low t) lv idx 0).
     eapply good_bind; [apply dec_loop_good; [exact Hr | unfold loop_fuel; lia]|].
-    intros [[low2 v2] r2] H2. cbn [snd] in H2.
-    change (tt_with t (set2 (tt_nodes t) lv idx v2) (set2 (tt_low t) lv idx low2) (tt_known t))
-      with (dec_upd t (lv, idx) v2 low2).
-    destruct (dec_upd_facts t (lv, idx) v2 low2 Hs (Hv (lv, idx) ltac:(left; reflexivity)))
+    intros [[[low2 v2] u2] r2] H2. cbn [snd] in H2.
+    change (tt_with t (set2 (tt_nodes t) lv idx v2) (set2 (tt_low t) lv idx low2) (tt_known t)
+                    (set2 (tt_unset t) lv idx u2))
+      with (dec_upd t (lv, idx) v2 low2 u2).
+    destruct (dec_upd_facts t (lv, idx) v2 low2 u2 Hs (Hv (lv, idx) ltac:(left; reflexivity)))
       as [Gn [Gs [Gw [Gh [Glw _]]]]].
     eapply good_weaken.
     + apply IH; [apply H2 | exact Gs|]. intros id Hin.
       apply (vid_shape t); [exact Gn | apply Hv; right; exact Hin].
     + intros [t' r'] [Ha Hb]. cbn [fst snd] in *. split; [eapply RS_trans; eassumption|].
-      eapply same_geom_trans; [|exact Hb]. unfold same_geom. repeat split; assumption || apply Gs.
+      eapply same_geom_trans; [|exact Hb]. unfold same_geom.
+      split; [exact Gw|]. split; [exact Gh|]. split; [exact Glw|]. split; [exact Gn | exact Gs].
 Qed.
 
 Lemma tt_decode_good : forall t r x y thr, rd_ok r -> wf_tree t ->
